@@ -84,6 +84,10 @@ func init() {
 	w1("C19", "seeded scenario with on-demand sources / runOnDemand commands, source faults and timer races x seeded schedule; non-trivial = an on-demand start happened; distinct = distinct event-order hash")
 	w1("C20", "seeded scenario with hooks configured and simulated hook processes x seeded schedule; non-trivial = two or more hook launches; distinct = distinct event-order hash")
 	w1("C39", "seeded scenario with forward lists and reloads x seeded schedule; non-trivial = a forwarder handler was started; distinct = distinct event-order hash")
+	w1("C40", "seeded scenario with everything enabled (publishers, readers, API polls, reloads, hooks, forwarders, shutdown) x seeded schedule, built with the race detector; the scheduler's own synchronisation is hidden from the detector so happens-before is the program's; non-trivial = at least one publisher and one reader attached; distinct = distinct event-order hash", "*")
+	props["C40"].Race = true
+	props["C40"].Quick, props["C40"].Thorough = 1200, 100000
+	props["C40"].LevelNote += "; metrics scrapes over HTTP and real session kick paths are outside (front-ends are stubs); data races are those the Go race detector reports under the explored schedules"
 }
 
 // ---------------------------------------------------------------------------
@@ -841,6 +845,35 @@ func confirmShrinkWrite(b *built, p *propDef, l *line, v violation, budget time.
 	t0 := time.Now()
 	sc := l.Scenario
 	dec := l.Decisions
+	if v.Clause == "data-race" {
+		// The schedule replays exactly (same event-log hash); the race detector's
+		// own bookkeeping (bounded shadow history) is sampled, so its report may
+		// need several replays to reappear. No shrinking for this clause.
+		reappeared, n := 0, 6
+		var events []string
+		for i := 0; i < n; i++ {
+			r := replayOnce(b, sc, dec, i == 0)
+			if r == nil || r.Hash != l.Hash {
+				infra("data-race run of seed %d does not replay with the same event log", l.Seed)
+			}
+			if i == 0 {
+				events = r.Events
+			}
+			if hasViolation(r, p, v.Clause) != nil {
+				reappeared++
+			}
+		}
+		rf := &replayFile{Property: p.ID, Clause: v.Clause, Detail: v.Detail, Seed: l.Seed, Scenario: sc, Decisions: dec,
+			Hash: l.Hash, Events: events, RepoHead: repoHead(),
+			Note: fmt.Sprintf("the schedule replays exactly (event-log hash equal in %d of %d replays); the race detector reported the race again in %d of them (its shadow history is bounded, detection is sampled)", n, n, reappeared)}
+		dir := filepath.Join(verifRoot, "replays")
+		os.MkdirAll(dir, 0o755)
+		path := filepath.Join(dir, fmt.Sprintf("%s-%s-%d.json", p.ID, v.Clause, l.Seed))
+		data, _ := json.MarshalIndent(rf, "", " ")
+		os.WriteFile(path, data, 0o644)
+		fmt.Printf("verif: violation %s/%s seed %d (race report reappeared in %d of %d exact replays):\n%s\n", v.Property, v.Clause, l.Seed, reappeared, n, tail(v.Detail, 2500))
+		return path
+	}
 	// 1. the recorded decisions must reproduce the violation and the event log
 	r1 := replayOnce(b, sc, dec, false)
 	if r1 == nil || hasViolation(r1, p, v.Clause) == nil || r1.Hash != l.Hash {
@@ -1013,6 +1046,14 @@ func cmdReplay(args []string) {
 	r := replayOnce(b, rf.Scenario, rf.Decisions, true)
 	if r == nil {
 		infra("replay produced no result")
+	}
+	if rf.Clause == "data-race" {
+		// the detector's report is sampled: replay the exact schedule a few more times
+		for i := 0; i < 8 && hasViolation(r, p, rf.Clause) == nil; i++ {
+			if r2 := replayOnce(b, rf.Scenario, rf.Decisions, true); r2 != nil {
+				r = r2
+			}
+		}
 	}
 	for _, e := range r.Events {
 		fmt.Println(e)
